@@ -101,7 +101,7 @@ def expected_paths(cd, nsf, lang="cpp"):
     return exp, clash
 
 
-def observe(ctx, cd, label, nsf, dclspc, edits, compile_all):
+def observe(ctx, cd, label, nsf, dclspc, edits, compile_all, touch=()):
     """generate for real, then check the property on the generated tree with model-free oracles; returns list of failures"""
     fails = []
 
@@ -207,10 +207,17 @@ def observe(ctx, cd, label, nsf, dclspc, edits, compile_all):
                          finding_class="uml:realised-operation-not-overridden")
         # accepted by a C++ compiler
         todo = sorted(tree) if compile_all else sorted(tree)[:: max(1, len(tree) // 6)]
+        # the files of the classes an edit names are always compiled
+        named = set(touch) | {x for e in edits for x in str(e).split(":")[1:]}
+        todo = sorted(set(todo) | {f for f in tree if os.path.splitext(os.path.basename(f))[0] in named})
         for rel in todo:
             ok, msg, culprit, cause = us.syntax_check(out, rel, dclspc)
             ctx.count("gxx_ok" if ok else "gxx_rejected")
-            if not ok and cause == "other" and edits:
+            if not ok and cause == "drawn-constructor-cannot-initialise-const-member":
+                # a constructor DRAWN in a class with const members has no place for their initialisers: the diagram, not the generator
+                ctx.count("outside_domain:drawn-constructor-in-class-with-const-members")
+                continue
+            if not ok and cause == "other" and edits and not all(str(e).startswith("probe:") for e in edits):
                 # a mutant may be semantically invalid C++ by construction (a removed class that is still used, an enum that
                 # is inherited from, a header of an element marked as generated elsewhere): only recognised generator faults count
                 ctx.count("mutant_rejected_for_other_reason")
@@ -238,6 +245,30 @@ def csharp(ctx, cd, label, nsf, edits):
             fails.append({"diagram": label, "edits": edits, "nsf": nsf, "lang": "cs", "detail": "C# file set differs: missing %s unexpected %s" % (
                 sorted(set(exp) - have), sorted(have - set(exp))), "finding_key": "uml_cs:%s:file-set" % label})
     return fails
+
+
+def directed_probes(ctx):
+    """shapes the random edits reach rarely, built from the shipped TestClassDiagram with umlsynth's mutators on every run:
+    each association removed in turn, association ends reordered (to-one ends last), an explicit constructor of the arity
+    of the generated one, overloads of equal arity (also returning same-named classes of two packages)"""
+    label = "TestClassDiagram"
+    for j, probe in enumerate(us.probe_names(label)):
+        cd = us.load(label)
+        touch = us.apply_probe(cd, probe)
+        nsf = bool(j % 2) or probe.startswith("overloads-foreign-return")     # same-named classes need namespace folders (K-C19-5)
+        if ctx.km is not None:
+            function_level(ctx, cd, label)
+        fails, nontrivial = observe(ctx, cd, label, nsf, "", ["probe:" + probe], compile_all=not ctx.quick, touch=touch)
+        if probe.startswith(("explicit-ctor", "overloads")):
+            fails += csharp(ctx, cd, label, nsf, ["probe:" + probe])
+        ctx.case(("uml-probe", probe, nsf), nontrivial=nontrivial)
+        ctx.count("directed_probe:" + probe.split(":")[0])
+        seen = set()
+        for f in fails:
+            f.update({"label": label, "probe": probe, "mut_seed": 0, "nedits": 0})
+            if f["finding_key"] not in seen:
+                seen.add(f["finding_key"])
+                ctx.violation(f["detail"], f)
 
 
 def build(label, seed, nedits):
@@ -300,6 +331,7 @@ def run(ctx):
         if not replay(ctx, data):
             ctx.violation("corpus case %s fails" % os.path.basename(p), data)
     derived_project_probe(ctx)
+    directed_probes(ctx)
     n = ctx.budget(60, 200)
     cases = [(label, 0, 0) for label in us.DIAGRAMS] + [("TestClassDiagram", -1, 0)]
     for i in range(n):
@@ -337,6 +369,9 @@ def replay(ctx, data):
     cd, edits = build(data["label"], data["mut_seed"], data["nedits"])
     if data["mut_seed"] == -1:
         us.add_cycle(cd)
+    if data.get("probe"):
+        us.apply_probe(cd, data["probe"])
+        edits = ["probe:" + data["probe"]]
     if data.get("lang") == "cs":
         return not csharp(ctx, cd, data["label"], data["nsf"], edits)
     fails, _ = observe(ctx, cd, data["label"], data["nsf"], data.get("dclspc", ""), edits, True)
